@@ -205,6 +205,19 @@ class Report:
         self.spurious.append({'ob': name, 'why': 'sat but no model reproduced', 'last': locals().get('last')})
         return 'sat'
 
+    def ob_eq(self, name, ctx, lhs, rhs, extra=(), timeout_ms=20000, **kw):
+        """Obligation pc /\\ extra => lhs == rhs over the reals.  First through an ideal-membership certificate
+        (vf/cert.py: sympy proposes cofactors, z3 checks every step), then as a plain query."""
+        from . import cert
+        v, dt, info = cert.prove_eq_mod(ctx, lhs, rhs, extra, min(timeout_ms, 20000))
+        self.solver_time += dt
+        if v == 'unsat':
+            self.obligations += 1
+            self.discharged += 1
+            self.stubs.add('some equalities discharged through z3-checked ideal-membership certificates (cofactors proposed by sympy)')
+            return 'unsat'
+        return self.ob(name, ctx, lhs == rhs, extra=extra, timeout_ms=timeout_ms, **kw)
+
     def replay(self, name, c):
         """write + run a replay script; record as confirmed cex if exit 1."""
         d = os.path.join(VERIF, 'replays', self.prop)
